@@ -35,6 +35,11 @@ pub struct Decode {
     /// `Interrupted` counts for the reads issued directly after a seek, consumed in order
     /// (so that faults land inside the in-flight "re-read" state, not uniformly)
     pub post_seek_eintr: Vec<u8>,
+    /// from this answered read call on the reader fails for good (not a transient error). What
+    /// such a decode returns is not this property's subject; the decodes that follow it are:
+    /// a failed decode in between must not change their results
+    #[serde(default)]
+    pub hard_error_at: Option<u32>,
 }
 
 #[derive(Clone, Debug, Serialize, Deserialize, PartialEq)]
@@ -63,6 +68,7 @@ struct SimReader<'a> {
     seek_backs: u32,
     split_two: u32,
     hang: bool,
+    hard_failed: bool,
 }
 
 impl<'a> SimReader<'a> {
@@ -85,6 +91,7 @@ impl<'a> SimReader<'a> {
             seek_backs: 0,
             split_two: 0,
             hang: false,
+            hard_failed: false,
         }
     }
     fn note(&mut self, s: String) {
@@ -105,6 +112,11 @@ impl Read for SimReader<'_> {
             // bounded run: a decode that keeps calling is reported as a hang
             self.hang = true;
             return Err(io::Error::new(io::ErrorKind::Other, "step cap"));
+        }
+        if self.dec.hard_error_at.map(|n| self.step as u32 >= n).unwrap_or(false) {
+            self.hard_failed = true;
+            self.note(format!("#{} read({})@{} -> EIO", self.calls, buf.len(), self.pos));
+            return Err(io::Error::new(io::ErrorKind::BrokenPipe, "simulated: device gone"));
         }
         let step = self.dec.steps.get(self.step).cloned().unwrap_or(Step { eintr: 0, take: 0 });
         if self.pending_eintr.is_none() {
@@ -300,9 +312,16 @@ impl Engine for ReaderEngine {
                     .collect();
                 let post_seek_eintr = if post_seek_bias { (0..4).map(|_| if rng.coin() { 1 + rng.below(3) as u8 } else { 0 }).collect() } else { vec![] };
                 let start = if fault_free || rng.chance(0.7) { 0 } else { *rng.pick(&[1usize, 2, 7, 14, 28, 100]) };
-                Decode { frame, start, steps, post_seek_eintr }
+                Decode { frame, start, steps, post_seek_eintr, hard_error_at: None }
             })
             .collect();
+        let mut decodes: Vec<Decode> = decodes;
+        if !fault_free && decodes.len() >= 2 && rng.chance(0.03) {
+            // the device behind one reader goes away in the middle of a decode; the decodes after
+            // it use healthy readers
+            let i = rng.usize_below(decodes.len() - 1);
+            decodes[i].hard_error_at = Some(rng.below(16) as u32);
+        }
         RScenario { frames: frames.iter().map(|f| wire::hex(f)).collect(), decodes }
     }
 
@@ -393,6 +412,11 @@ impl Engine for ReaderEngine {
             h.str(&got_s);
             state.u64(rd.trace.finish());
             out.steps += rd.calls;
+            if rd.hard_failed {
+                // not judged itself; everything decoded after it is
+                out.fault("hard_read_error_in_an_earlier_decode");
+                continue;
+            }
             if rd.eintr_total > 0 {
                 *out.faults.entry("eintr").or_insert(0) += rd.eintr_total as u64;
             }
@@ -485,6 +509,11 @@ impl Engine for ReaderEngine {
                     s.decodes[i].start = 1;
                     c.push(s);
                 }
+            }
+            if d.hard_error_at.is_some() {
+                let mut s = sc.clone();
+                s.decodes[i].hard_error_at = None;
+                c.push(s);
             }
             if !d.post_seek_eintr.is_empty() {
                 let mut s = sc.clone();
